@@ -611,6 +611,14 @@ class Interp:
             env[a.kwarg.arg] = Dct([(Const(k), v) for k, v in extra])
         cls = fi.cls
         frame = Frame(fi, fi.module, env, parent=fn.closure, cls=cls)
+        is_gen = getattr(fi, "_is_generator", None)
+        if is_gen is None:
+            from .model import walk_no_nested
+            is_gen = fi._is_generator = any(isinstance(n, (ast.Yield, ast.YieldFrom)) for n in walk_no_nested(fi.node))
+        if is_gen:
+            # a generator function is evaluated eagerly: the values it yields, in order (laziness only interleaves
+            # the same side effects with the consumer's; rules that care about that order do not inline it)
+            frame.yields = []
         self.depth += 1
         self.fn_stack.append(fi)
         try:
@@ -618,8 +626,8 @@ class Interp:
                 try:
                     self.exec_block(fi.node.body, frame)
                 except _Return as r:
-                    return r.value
-            return Const(None)
+                    return Lst(frame.yields) if is_gen else r.value
+            return Lst(frame.yields) if is_gen else Const(None)
         finally:
             self.depth -= 1
             self.fn_stack.pop()
@@ -1525,6 +1533,29 @@ class Interp:
         if f:
             return f(l, r)
         return None
+
+    def _gen_frame(self, frame):
+        f = frame
+        while f is not None and not hasattr(f, "yields"):
+            f = f.parent if getattr(f, "fi", None) is None else None
+        return f
+
+    def ex_Yield(self, e, frame):
+        if not hasattr(frame, "yields"):
+            raise Undecided("yield outside an inlined generator function")
+        v = self.eval(e.value, frame) if e.value is not None else Const(None)
+        frame.yields.append(v)
+        return Const(None)
+
+    def ex_YieldFrom(self, e, frame):
+        if not hasattr(frame, "yields"):
+            raise Undecided("yield from outside an inlined generator function")
+        v = self.eval(e.value, frame)
+        items = self.concrete_iter(v)
+        if items is None:
+            raise Undecided("yield from a sequence that is not concrete")
+        frame.yields.extend(items)
+        return Const(None)
 
     def ex_Lambda(self, e, frame):
         return Term("lambda", e.lineno, node=e)
